@@ -26,34 +26,42 @@ fn accepts(s: &Start) -> bool {
     !s.skip_interrupt && (s.nmi || (s.int && s.regs.iff1))
 }
 
-/// C01 + C03 obligations of one step
-fn check(s: &Start) {
+/// C01 + C03 obligations of one step. In the interrupt-acceptance harnesses (`check_int`) the state and
+/// transfer comparisons ARE the statement of C02 (IFF1/IFF2 effects, pushed return address, vector,
+/// HALT release), so there they carry both tags and `check C02` counts them.
+macro_rules! def_check {
+    ($name:ident, $tag:expr) => {
+fn $name(s: &Start) {
     let o = run_both(s);
     kani::assert(!o.overflow, "harness: event log large enough");
     let ignore_q = o.q_waived;
     let (a, b) = (&o.real, &o.spec);
     kani::assert(a.a == b.a && a.b == b.b && a.c == b.c && a.d == b.d && a.e == b.e && a.h == b.h && a.l == b.l,
-        "C01.state main registers A,B,C,D,E,H,L");
-    kani::assert(a.f == b.f, "C01.state flags F (all eight bits)");
+        concat!($tag, ".state main registers A,B,C,D,E,H,L"));
+    kani::assert(a.f == b.f, concat!($tag, ".state flags F (all eight bits)"));
     kani::assert(a.a_alt == b.a_alt && a.f_alt == b.f_alt && a.b_alt == b.b_alt && a.c_alt == b.c_alt
         && a.d_alt == b.d_alt && a.e_alt == b.e_alt && a.h_alt == b.h_alt && a.l_alt == b.l_alt,
-        "C01.state alternate registers");
-    kani::assert(a.ixh == b.ixh && a.ixl == b.ixl && a.iyh == b.iyh && a.iyl == b.iyl, "C01.state IX IY");
-    kani::assert(a.pc == b.pc, "C01.state PC");
-    kani::assert(a.sp == b.sp, "C01.state SP");
-    kani::assert(a.i == b.i && a.r == b.r, "C01.state I R");
-    kani::assert(a.iff1 == b.iff1 && a.iff2 == b.iff2, "C01.state IFF1 IFF2");
-    kani::assert(a.im == b.im, "C01.state interrupt mode");
-    kani::assert(a.halted == b.halted, "C02.state halted");
+        concat!($tag, ".state alternate registers"));
+    kani::assert(a.ixh == b.ixh && a.ixl == b.ixl && a.iyh == b.iyh && a.iyl == b.iyl, concat!($tag, ".state IX IY"));
+    kani::assert(a.pc == b.pc, concat!($tag, ".state PC"));
+    kani::assert(a.sp == b.sp, concat!($tag, ".state SP"));
+    kani::assert(a.i == b.i && a.r == b.r, concat!($tag, ".state I R"));
+    kani::assert(a.iff1 == b.iff1 && a.iff2 == b.iff2, concat!($tag, ".state IFF1 IFF2"));
+    kani::assert(a.im == b.im, concat!($tag, ".state interrupt mode"));
+    kani::assert(a.halted == b.halted, concat!("C02", ".state halted"));
     kani::assert(a.pending_prefix == b.pending_prefix && a.int_inhibit == b.int_inhibit,
-        "C02.state pending prefix / interrupt shadow");
-    kani::assert(a.memptr == b.memptr, "C01.state MEMPTR");
-    kani::assert(ignore_q || a.q == b.q, "C01.state Q");
-    kani::assert(o.ok_data, "C01.trace memory/port transfers (order, address, data)");
+        concat!("C02", ".state pending prefix / interrupt shadow"));
+    kani::assert(a.memptr == b.memptr, concat!($tag, ".state MEMPTR"));
+    kani::assert(ignore_q || a.q == b.q, concat!($tag, ".state Q"));
+    kani::assert(o.ok_data, concat!($tag, ".trace memory/port transfers (order, address, data)"));
     kani::assert(o.t_real == o.t_spec, "C03.time total T-states");
     kani::assert(o.ok_full, "C03.trace bus cycles (kind, address, clocks)");
     kani::cover!(true);
 }
+    };
+}
+def_check!(check, "C01");
+def_check!(check_int, "C01/C02");
 
 fn is_prefix(b: u8) -> bool {
     b == 0xCB || b == 0xDD || b == 0xED || b == 0xFD
@@ -63,6 +71,9 @@ fn is_prefix(b: u8) -> bool {
 /// `int_not_accepted`; concrete line levels keep the interrupt paths out of symbolic execution)
 macro_rules! group {
     ($name:ident, prefix = $p:expr, halted = $h:expr, bytes = [$($b:expr),*], |$a:ident| $cond:expr) => {
+        group!($name, check, prefix = $p, halted = $h, bytes = [$($b),*], |$a| $cond);
+    };
+    ($name:ident, $chk:ident, prefix = $p:expr, halted = $h:expr, bytes = [$($b:expr),*], |$a:ident| $cond:expr) => {
         #[kani::proof]
         #[kani::unwind(9)]
         fn $name() {
@@ -75,7 +86,7 @@ macro_rules! group {
             }
             let $a = &s.answers;
             kani::assume($cond);
-            check(&s);
+            $chk(&s);
         }
     };
 }
@@ -94,8 +105,15 @@ group!(pend_dd, prefix = 0xDD, halted = false, bytes = [], |a| true);
 group!(pend_fd, prefix = 0xFD, halted = false, bytes = [], |a| true);
 group!(pend_ed, prefix = 0xED, halted = false, bytes = [], |a| true);
 // HALT: entering, and staying halted (a halted CPU re-fetches the HALT opcode)
-group!(halt_enter, prefix = 0, halted = false, bytes = [0x76], |a| true);
-group!(halt_stay, prefix = 0, halted = true, bytes = [0x76], |a| true);
+// (their state comparisons are C02's statement: same PC, only R and time advance)
+group!(halt_enter, check_int, prefix = 0, halted = false, bytes = [0x76], |a| true);
+group!(halt_stay, check_int, prefix = 0, halted = true, bytes = [0x76], |a| true);
+// the instructions C02 names: EI / DI (IFF1, IFF2 and the one-instruction shadow), RETN / RETI (IFF1 := IFF2);
+// concrete opcodes, every register / flip-flop / bus answer symbolic (the mirrors ED 55/5D/65/6D/75/7D are in ed_all)
+group!(c02_ei, check_int, prefix = 0, halted = false, bytes = [0xFB], |a| true);
+group!(c02_di, check_int, prefix = 0, halted = false, bytes = [0xF3], |a| true);
+group!(c02_retn, check_int, prefix = 0, halted = false, bytes = [0xED, 0x45], |a| true);
+group!(c02_reti, check_int, prefix = 0, halted = false, bytes = [0xED, 0x4D], |a| true);
 
 /// interrupt groups (C02): every register value, halted or not; the control inputs that decide
 /// acceptance (skip flag, line levels, IFF1, IM=2 or not) are concrete per harness so symbolic
@@ -115,7 +133,7 @@ fn int_case(skip: bool, int: bool, nmi: bool, iff1: bool, im: Option<u8>, nop_at
     if !accepted {
         kani::assume(!halted);
     }
-    check(&s);
+    check_int(&s);
 }
 
 macro_rules! int_group {
